@@ -229,6 +229,28 @@ def rule_labels(ctx: Ctx) -> None:
                 if extra:
                     ctx.fail("table.labels", m, loop.iter, f"CircuitUnitaryCount counts non-unitary / identity label(s) {sorted(extra)}",
                              func="CircuitUnitaryCount.evaluate", construct=f"CircuitUnitaryCount: non-unitary labels {sorted(extra)}")
+    # CircuitUnitaryCount as a complement query: what is counted is "every operation the compilers accept except the listed labels", which
+    # has to be exactly the unitary gate classes — the classically controlled gates and the measurements are operations too
+    ci_u = repo.cls("CircuitUnitaryCount", METRICS)
+    ev_u = ci_u.methods().get("evaluate")
+    if ev_u is not None and not _label_loops(ev_u):
+        exq = [c for c in calls_in(ev_u) if call_attr(c) == "get_node_exclude_labels" and c.args and isinstance(c.args[0], (ast.List, ast.Tuple))]
+        if not exq:
+            raise AnalysisError("CircuitUnitaryCount.evaluate: neither a loop over gate labels nor a complement query was found")
+        excluded = {e.value for e in exq[0].args[0].elts if isinstance(e, ast.Constant)}
+        accepted = {c.name for c in hooks.accepted_classes(repo, hooks.STAB, "StabilizerCompiler")} | {c.name for c in hooks.accepted_classes(repo, hooks.DM, "DensityMatrixCompiler")}
+        counted = {c for c in accepted if c not in excluded and c not in ("OneQubitGateWrapper",)}
+        want = unitary_gate_classes(repo)
+        extra, missing = sorted(counted - want), sorted(want - counted)
+        n_lit += len(excluded)
+        if extra or missing:
+            ctx.fail("table.labels", m, exq[0],
+                     f"CircuitUnitaryCount counts every node except those labelled {sorted(excluded)}: that " +
+                     (f"includes the non-unitary operation class(es) {extra}" if extra else "") + (" and " if extra and missing else "") +
+                     (f"leaves out the unitary class(es) {missing}" if missing else "") + " — a measurement-controlled correction is not a unitary of the circuit",
+                     func="CircuitUnitaryCount.evaluate", construct=f"CircuitUnitaryCount: complement query counts {extra[:3]}")
+        else:
+            ctx.ok("table.labels", m, exq[0], what="CircuitUnitaryCount: complement query counts exactly the unitary classes")
     if n_lit == 0:
         raise AnalysisError("label rules: no label literal found in the metric classes")
 
@@ -657,7 +679,15 @@ def _edit_flatten_helper(src: str) -> str:
     return out
 
 
+def _edit_unitary_complement(src: str) -> str:
+    """CircuitUnitaryCount counts 'everything except endpoints, identities and the two measurement classes' instead of the eight gate names"""
+    a = src.index("        n_u = 0\n        for label in [\n            \"SigmaX\",")
+    b = src.index("                n_u += len(circuit.get_node_by_labels([label]))\n", a) + len("                n_u += len(circuit.get_node_by_labels([label]))\n")
+    return src[:a] + ("        n_u = len(circuit.get_node_exclude_labels([\"Input\", \"Output\", \"Identity\", \"MeasurementZ\", \"MeasurementCNOTandReset\"]))\n") + src[b:]
+
+
 KNOCKOUTS = [
+    Knockout("unitary-count-by-complement", METRICS, _edit_unitary_complement, "table.labels", "complement query"),
     Knockout("flatten-helper-returns-early", METRICS, _edit_flatten_helper, "metric.source", "returns early"),
     Knockout("reset-intervals-skip-last-pair", METRICS, sub_once("                m_list[j + 1] - m_list[j] for j in range(len(m_list) - 1)", "                m_list[j + 1] - m_list[j] for j in range(len(m_list) - 2)"), "metric.arith", "CircuitMaxEmitResetDepth"),
     Knockout("eff-depth-difference-reversed", METRICS, sub_once("                node_depth_list[j + 1] - node_depth_list[j]", "                node_depth_list[j] - node_depth_list[j + 1]"), "metric.arith", "CircuitMaxEmitEffDepth"),
